@@ -733,6 +733,61 @@ def _bounded(ctx, scratch):
             rep.fail(sg, "%s / %s: %s" % (when, kind, what), {"late_listener": when, "kind": kind})
     ctx.done(exhaustive=True, note=rep.note())
 
+    ctx.check("stream_kinds",
+              "one application, a handler that raises from one source line, runs on real text streams of different encodings in "
+              "every order of length 2 over {UTF-8, ASCII} x verbosity {0, 1, 3}: each run returns a non-zero status without "
+              "raising and its report can be written to ITS stream (an ASCII stream rejects the UTF-8 gutter symbols)")
+    for order, verbosity, fails in stream_kind_cases():
+        ctx.case([order, verbosity], nontrivial=len(set(order)) > 1)
+        for sg, what in fails:
+            rep.fail(sg, "%s at verbosity %d: %s" % ("+".join(order), verbosity, what), {"stream_order": list(order), "verbosity": verbosity})
+    ctx.done(exhaustive=True, note=rep.note())
+
+
+def stream_kind_cases(only=None):
+    import io as _io
+    import itertools
+
+    from clikit import ConsoleApplication
+    from clikit.args import ArgvArgs
+    from clikit.config import DefaultApplicationConfig
+    from clikit.io.input_stream import StringInputStream
+    from clikit.io.output_stream import StreamOutputStream
+
+    def failing(args, io_, command=None):
+        raise Boom("stream kinds " + MARK)
+
+    class H(object):
+        def handle(self, a, io_, c):
+            return failing(a, io_, c)
+
+    for order in itertools.product(("utf-8", "ascii"), repeat=2):
+        for verbosity in (0, 1, 3):
+            if only is not None and (list(order), verbosity) != only:
+                continue
+            fails = []
+            cfg = DefaultApplicationConfig("app", "1.0")
+            cfg.set_terminate_after_run(False)
+            cfg.create_command("go").set_handler(H())
+            app = ConsoleApplication(cfg)
+            for k, enc in enumerate(order):
+                raw_out, raw_err = _io.BytesIO(), _io.BytesIO()
+                out = _io.TextIOWrapper(raw_out, encoding=enc, write_through=True)
+                err = _io.TextIOWrapper(raw_err, encoding=enc, write_through=True)
+                argv = ["app", "go"] + (["-" + "v" * verbosity] if verbosity else [])
+                try:
+                    st = app.run(ArgvArgs(argv), StringInputStream(""), StreamOutputStream(out), StreamOutputStream(err))
+                except BaseException as e:  # the call under test
+                    fails.append(("stream-kinds|run-raises|%s|%s-stream-%s" % (type(e).__name__, enc, "first" if k == 0 else "after-" + order[0]),
+                                  "run %d on %s streams raised %r" % (k + 1, enc, e)))
+                    break
+                text = raw_err.getvalue().decode(enc) + raw_out.getvalue().decode(enc)
+                if not (isinstance(st, int) and not isinstance(st, bool) and 1 <= st <= 255):
+                    fails.append(("stream-kinds|status", "run %d on %s streams returned %r" % (k + 1, enc, st)))
+                if MARK not in text:
+                    fails.append(("stream-kinds|no-report", "run %d on %s streams printed %r" % (k + 1, enc, text[:120])))
+            yield order, verbosity, fails
+
 
 def late_listener_cases():
     """pre-handle listeners registered AFTER the application (and its commands) were built, on a dispatcher that had no
@@ -859,7 +914,13 @@ def callback_cases():
 def replay_bounded(check_id, failure):
     w = failure.get("witness") or {}
     verbs = dict(VERBOSITY)
-    if "tokens" in w:
+    if "stream_order" in w:
+        fails = [f for _o, _v, fl in stream_kind_cases(only=(list(w["stream_order"]), w["verbosity"])) for f in fl]
+    elif "late_listener" in w:
+        fails = [f for wh, kd, fl in late_listener_cases() if wh == w["late_listener"] and kd == w["kind"] for f in fl]
+    elif "callback" in w:
+        fails = [f for sn, bh, fl in callback_cases() if sn == w["callback"] and bh == w["behaviour"] for f in fl]
+    elif "tokens" in w:
         fails = run_line_case(w.get("line_class", "line"), w["tokens"], (w["verbosity"], verbs[w["verbosity"]]))
     else:
         route = [r for r in ROUTES if r[0] == w["route"]][0]
